@@ -3319,6 +3319,9 @@ class sptensor:
             if other == 0:
                 nansubsidx = tt_setdiff_rows(self.allsubs(), newsubs)
                 nansubs = self.allsubs()[nansubsidx]
+                if self.nnz == 0:  # nothing stored: every entry is 0 / 0
+                    newsubs = np.empty((0, self.ndims), dtype=int)
+                    newvals = np.empty((0, 1))
                 newsubs = np.vstack((newsubs, nansubs))
                 newvals = np.vstack((newvals, np.nan * np.ones((nansubs.shape[0], 1))))
             return ttb.sptensor(newsubs, newvals, self.shape)
